@@ -463,7 +463,8 @@ PROPS.update({
         explanation="theorems: without helper attributes the documented rules proved for C01/C06/C07/C10/C11 are the standard derive's rules (plain_* corollaries). L2: the same definition under derive_ex and under the standard derives over a shape grammar (empty enums, unsized last field, raw identifiers, lifetimes, const parameters, defaults, where-clauses, associated-type field types), compared on all values.",
         theorems=[(CMP + 'C12', ['DX.plain_record', 'DX.plain_accepted', 'DX.plain_eq_is_std', 'DX.plain_cmp_is_std',
                                  'DX.plain_pcmp_is_std', 'DX.plain_hash_is_fieldwise', 'DX.plain_debug_is_std',
-                                 'DX.plain_default_is_std']),
+                                 'DX.plain_default_is_std', 'DX.plain_item_accepted', 'DX.plain_item_eq',
+                                 'DX.plain_item_partial_cmp', 'DX.plain_item_cmp', 'DX.plain_item_hash']),
                   (CMP + 'C07', ['DX.clone_fieldwise', 'DX.clone_from_spec'])],
         l1=[('basic', 3000, 100000), ('cmpN', 2000, 50000)],
         labels=r':(Clone|Debug|Default|PartialEq|Eq|PartialOrd|Ord|Hash)(#1)?$',
